@@ -202,6 +202,10 @@ func c01Gen(tier string, emit func(c01Case)) {
 		emit(c01Case{Routes: defs, Methods: reqM, Late: true})
 	})
 	permute(c01Pool, 2, withSets)
+	// three routes over the core pool, the last one registered only after every path was looked up on the caching router
+	permute(c01Core, 3, func(pats []string) {
+		emit(c01Case{Routes: []refmodel.RouteDef{{Path: pats[0], Methods: []string{"GET"}}, {Path: pats[1], Methods: []string{"GET", "POST"}}, {Path: pats[2], Methods: []string{"GET"}}}, Methods: reqM, Late: true})
+	})
 	// HEAD requests against tables that mix HEAD-only and GET-only routes (a direct HEAD match beats the GET fallback)
 	permute(c01Pool, 2, func(pats []string) {
 		emit(c01Case{Routes: []refmodel.RouteDef{{Path: pats[0], Methods: []string{"GET"}}, {Path: pats[1], Methods: []string{"HEAD"}}}, Methods: []string{"HEAD", "GET"}})
@@ -441,7 +445,7 @@ func c01Requests(c c01Case, r *rux.Router, rec *hitRec, tb *refmodel.Table, note
 var c01Spec = fw.Spec[c01Case]{
 	ID:    "C01",
 	Level: "model_checking",
-	Rule: "complete product: ordered route tables of <=K distinct patterns from a 27-pattern pool (every index/tier shortcut has colliding members) x method sets x registration APIs (Add, AddRoute(NewRoute), AddNamed, NewNamedRoute.AttachTo, GET/POST/... helpers, options via WithOptions, the pattern split into a Group prefix and a route path) (+ HEAD requests against every ordered pair of a GET-only and a HEAD-only route) (+ StrictLastSlash tables: ordered pairs over an 11-pattern pool of routes that end in '/' or whose tail may be empty, and the pairs of the main pool, with every path also requested with a trailing slash) (+ on caching routers every ordered pair of a one-method and a two-method route with the methods requested in both orders) (+ ordered pairs over 7 patterns whose literal text holds adjacent dots against every spelling with one dot replaced or dropped) (+ StrictLastSlash tables with InterceptAll in both option orders) (+ custom regexes on variables named like the global variables) (+ literal first segments of every length 40..80 bytes under all nine methods next to a route that begins with a variable) (+ every all-GET ordered pair again with every path looked up 130 times in a row and the whole pass repeated afterwards) (+ every ordered pair again after the router's inspection API was used, and on a caching router with the second route registered only after a first round of all requests) x request methods x all 259 paths of <=3 segments over {a,b,a.b,axb,12,q.html}; " +
+	Rule: "complete product: ordered route tables of <=K distinct patterns from a 27-pattern pool (every index/tier shortcut has colliding members) x method sets x registration APIs (Add, AddRoute(NewRoute), AddNamed, NewNamedRoute.AttachTo, GET/POST/... helpers, options via WithOptions, the pattern split into a Group prefix and a route path) (+ HEAD requests against every ordered pair of a GET-only and a HEAD-only route) (+ StrictLastSlash tables: ordered pairs over an 11-pattern pool of routes that end in '/' or whose tail may be empty, and the pairs of the main pool, with every path also requested with a trailing slash) (+ on caching routers every ordered pair of a one-method and a two-method route with the methods requested in both orders) (+ ordered pairs over 7 patterns whose literal text holds adjacent dots against every spelling with one dot replaced or dropped) (+ StrictLastSlash tables with InterceptAll in both option orders) (+ custom regexes on variables named like the global variables) (+ literal first segments of every length 40..80 bytes under all nine methods next to a route that begins with a variable) (+ every all-GET ordered pair again with every path looked up 130 times in a row and the whole pass repeated afterwards) (+ every ordered pair again after the router's inspection API was used, and on a caching router with the second route registered only after a first round of all requests; every ordered triple over the 10-pattern core pool with the third route registered that late; every route also through a group mounted at the site root) x request methods x all 259 paths of <=3 segments over {a,b,a.b,axb,12,q.html}; " +
 		"each (table,method,path) is one evaluation: Router.Match and ServeHTTP on the real router vs refmodel.Resolve; non-trivial = at least two routes qualify or the winner is not the first registered route",
 	Assume: []string{
 		"patterns and paths are drawn from the stated alphabets; larger tables are covered only as far as the small-scope hypothesis goes",
